@@ -122,7 +122,7 @@ class Dense(Harness):
     functions = ("get_boolean_mask", "get_pileup", "merge_intervals", "GenomicRunLengthArray.from_intervals/to_array",
                  "npstructures.RunLengthArray / RunLength2dArray")
     bounds = {"quick": "contig size S in 1..5, 0-2 intervals in arbitrary order (S=4: 3 intervals); every start/stop value",
-              "thorough": "S in 1..7, 0-3 intervals"}
+              "thorough": "S in 1..7, 0-3 intervals (3 intervals up to S=6)"}
 
     def skeletons(self, tier, seed):
         out = []
@@ -130,7 +130,7 @@ class Dense(Harness):
             if tier == "quick":
                 combos = [(S, n) for S in (1, 2, 3, 5) for n in (0, 1, 2)] + [(4, 3)]
             else:
-                combos = [(S, n) for S in range(1, 8) for n in (0, 1, 2, 3)]
+                combos = [(S, n) for S in range(1, 8) for n in (0, 1, 2, 3) if not (S == 7 and n == 3)]   # (7, 3) exceeds 20 000 paths
             out += [dict(which=which, S=S, n=n) for S, n in combos]
         return out
 
